@@ -247,6 +247,7 @@ theorem tail_core {X Y : Forest} {c : Nat} {t : HTree} {q : Nat} {vq : Value} {A
       refine flow2 ka (.text (ta ++ tc)) hkamem hkat htt hc ?_ ?_
       · rw [hprevS, hpv]
         exact Forest.addConsolidate_prev hc (hXtext.trans htd) ((T.text ka hkamem).trans hta) _
+          (hAt ka (by simp))
       · have e1 : (A2 ++ [ka]) ++ kr :: B = A2 ++ ka :: (kr :: B) := by simp
         have e2 : (A2 ++ [ka]) ++ t :: kr :: B = A2 ++ ka :: t :: (kr :: B) := by simp
         have ndL2 : (handlesList (A2 ++ ka :: (kr :: B))).Nodup := e1 ▸ ndLY
@@ -269,6 +270,7 @@ theorem tail_core {X Y : Forest} {c : Nat} {t : HTree} {q : Nat} {vq : Value} {A
         refine flow2 kr (.text (tc ++ tb)) (by simp) hkrt htt hc ?_ ?_
         · rw [hprevS]
           exact Forest.addConsolidate_next hc (hXtext.trans htd) hprevNone (hkrtext.trans htb)
+            (hBt kr (by simp))
         · rw [hnoleft, replaceTop_mid rfl tA, mergeNewHead_text hvt (textData_some htb)]
           simp
 
